@@ -58,6 +58,10 @@ def probes(rnd, n_each, start_id):
                           junction("J2", 0.0, [{"base": 0.002, "pat": ""}])]
             setting = {"PRV": netgen.rgrid(rnd, 10, 50, 2.5), "PSV": netgen.rgrid(rnd, 30, 60, 2.5),
                        "FCV": netgen.rgrid(rnd, 0.002, 0.012, 0.001), "TCV": netgen.rgrid(rnd, 5, 200, 5)}[vt]
+            if k == 4 and vt == "PRV":
+                setting = 80.0          # unreachable downstream pressure: the valve is fully open
+            if k == 4 and vt == "FCV":
+                setting = 0.08          # more than the demand can draw: the valve is fully open
             up = {"len": 2000.0, "diam": 0.15} if vt == "PSV" else {"len": 400.0, "diam": 0.3}
             if vt == "PSV":
                 setting = netgen.rgrid(rnd, 30, 50, 2.5)
@@ -65,12 +69,12 @@ def probes(rnd, n_each, start_id):
                            "rough": 100.0, "minor": 0.0, "cv": False, "init": 1},
                           {"name": "V0", "type": vt, "a": "J1", "b": "J0", "diam": rnd.choice([0.15, 0.2, 0.3]),
                            "minor": rnd.choice([0.0, 2.0, 8.0]), "setting": setting,
-                           "init": 2 if k < 4 else rnd.choice([2, 2, 1, 0])},
+                           "init": 2 if k < 5 else rnd.choice([2, 2, 1, 0])},
                           {"name": "P2", "type": "pipe", "a": "J0", "b": "J2", "len": 200.0, "diam": 0.2, "rough": 100.0,
                            "minor": 0.0, "cv": False, "init": 1}]
             # a downstream source lets the valve throttle (a PSV cannot be active when it is the only path to a
             # fixed demand) and lets it see reverse conditions
-            if (vt == "PSV" and k < 4) or (k >= 4 and rnd.random() < 0.5):
+            if (vt == "PSV" and k < 4) or (k >= 5 and rnd.random() < 0.5):
                 s["nodes"].append(res("R1", netgen.rgrid(rnd, 20, 40, 5) if k < 4 else netgen.rgrid(rnd, 20, 70, 5)))
                 s["links"].append({"name": "P3", "type": "pipe", "a": "R1", "b": "J2", "len": 600.0, "diam": 0.2,
                                    "rough": 100.0, "minor": 0.0, "cv": False, "init": 1})
